@@ -352,6 +352,7 @@ class StmtMixin:
             if is_for:
                 ghost2["_i"] = Val(TInt, i + 1)
             self.check_invs(kind, lid, spec, s, ghost2, node, "step")
+            self.probe("loop#%d-body-reachable" % lid, s)
             s.path.pop()
             # 4. continuation: exit (guard false) or break/return from the step
             abrupt = zor(s.brk, s.ret)
@@ -399,6 +400,7 @@ class StmtMixin:
             s.cont = False
             ghost2 = {"_visited": Val(TSet(ety), z3.Store(vis, x.z, True)), "_set": it}
             self.check_invs("for", lid, spec, s, ghost2, node, "step")
+            self.probe("loop#%d-body-reachable" % lid, s)
             s.path.pop()
             abrupt = zor(s.brk, s.ret)
             done = z3.ForAll([q], z3.Implies(z3.Select(S, q), z3.Select(vis, q)))
